@@ -1861,3 +1861,985 @@ Proof.
   intros mg v hs rh H. apply create_parts_ok_iff in H. destruct H as [_ [_ [_ [_ [_ [key [Hk Hr]]]]]]].
   exists key. split; [exact Hk|]. split; [exact Hr|]. intro extra. subst rh. apply write_response_101.
 Qed.
+
+(* ------------------------------------------------------------------------------------------ *)
+(** * Client: generate_request *)
+
+Definition required_names : list bytes := map fst required_headers.
+Definition is_required (n : bytes) : bool := existsb (fun q => bytes_eqb (fst q) n) required_headers.
+(* the headers of the request that are not one of the five, in list order *)
+Definition extra_headers (hs : headers) : headers := filter (fun nv => negb (is_required (fst nv))) hs.
+Definition extra_line (nv : bytes * bytes) : bytes := fix_name (fst nv) ++ B": " ++ snd nv ++ crlf.
+Definition extra_lines (hs : headers) : bytes := concat (map extra_line hs).
+Definition first_value (name : bytes) (hs : headers) : bytes :=
+  match hget name hs with Some v => v | None => [] end.
+
+Fixpoint req_lines (req : list (bytes * bytes)) (hs : headers) : bytes :=
+  match req with
+  | [] => []
+  | (l, wn) :: r => wn ++ B": " ++ first_value l hs ++ crlf ++ req_lines r hs
+  end.
+
+(* first problem met while writing the required headers, in order *)
+Fixpoint req_check (req : list (bytes * bytes)) (hs : headers) : option hs_error :=
+  match req with
+  | [] => None
+  | (l, _) :: r =>
+      match hget l hs with
+      | None => Some (HEProto (InvalidHeader l))
+      | Some v => if forallb visible v then req_check r hs else Some HEUtf8
+      end
+  end.
+
+Fixpoint hremove_all (names : list bytes) (hs : headers) : headers :=
+  match names with [] => hs | n :: r => hremove_all r (hremove n hs) end.
+
+Lemma req_check_hremove : forall req l hs, ~ In l (map fst req) ->
+  req_check req (hremove l hs) = req_check req hs.
+Proof.
+  induction req as [|[l' wn] r IH]; intros l hs Hn; [reflexivity|].
+  cbn [req_check map fst In] in *. rewrite hget_hremove_other by (intro E; apply Hn; left; congruence).
+  destruct (hget l' hs) as [v|]; [|reflexivity]. destruct (forallb visible v); [|reflexivity].
+  apply IH. intro H. apply Hn. right. exact H.
+Qed.
+
+Lemma req_lines_hremove : forall req l hs, ~ In l (map fst req) ->
+  req_lines req (hremove l hs) = req_lines req hs.
+Proof.
+  induction req as [|[l' wn] r IH]; intros l hs Hn; [reflexivity|].
+  cbn [req_lines map fst In] in *. unfold first_value.
+  rewrite hget_hremove_other by (intro E; apply Hn; left; congruence).
+  rewrite IH by (intro H; apply Hn; right; exact H). reflexivity.
+Qed.
+
+Lemma write_required_spec : forall req hs, NoDup (map fst req) ->
+  write_required req hs =
+  match req_check req hs with
+  | Some e => HErr e
+  | None => HOk (req_lines req hs, hremove_all (map fst req) hs)
+  end.
+Proof.
+  induction req as [|[l wn] r IH]; intros hs Hnd; [reflexivity|].
+  cbn [map fst] in Hnd. inversion Hnd as [|x xs Hnotin Hnd']; subst.
+  cbn [write_required req_check req_lines map fst hremove_all].
+  destruct (hget l hs) as [v|] eqn:Eg; [|reflexivity].
+  unfold to_str. destruct (forallb visible v); [|reflexivity].
+  rewrite (IH (hremove l hs) Hnd'), (req_check_hremove r l hs Hnotin).
+  destruct (req_check r hs); [reflexivity|].
+  rewrite (req_lines_hremove r l hs Hnotin). unfold first_value. rewrite Eg. reflexivity.
+Qed.
+
+Lemma filter_filter : forall (A : Type) (f g : A -> bool) l,
+  filter f (filter g l) = filter (fun x => g x && f x) l.
+Proof.
+  intros A f g. induction l as [|x l IH]; [reflexivity|].
+  cbn [filter]. destruct (g x); cbn [filter andb]; [destruct (f x)|]; rewrite IH; reflexivity.
+Qed.
+
+Lemma hremove_all_filter : forall names hs,
+  hremove_all names hs = filter (fun nv => negb (existsb (bytes_eqb (fst nv)) names)) hs.
+Proof.
+  induction names as [|n r IH]; intro hs; cbn [hremove_all existsb].
+  - symmetry. cbn [negb]. induction hs as [|x hs IHh]; [reflexivity|]. cbn [filter]. rewrite IHh. reflexivity.
+  - rewrite IH. unfold hremove. rewrite filter_filter. apply filter_ext. intro nv.
+    rewrite negb_orb. reflexivity.
+Qed.
+
+Lemma hremove_all_required : forall hs, hremove_all required_names hs = extra_headers hs.
+Proof.
+  intro hs. rewrite hremove_all_filter. unfold extra_headers. apply filter_ext. intro nv.
+  f_equal. unfold is_required, required_names, required_headers. cbn [map fst existsb].
+  rewrite !(bytes_eqb_sym (fst nv)). reflexivity.
+Qed.
+
+Lemma required_names_nodup : NoDup required_names.
+Proof.
+  unfold required_names, required_headers. cbn [map fst].
+  repeat constructor; cbn [In]; intro H; repeat (destruct H as [H|H]; [discriminate|]); exact H.
+Qed.
+
+Lemma extra_headers_not_required : forall hs, Forall (fun nv => is_required (fst nv) = false) (extra_headers hs).
+Proof.
+  intro hs. apply Forall_forall. intros nv H. unfold extra_headers in H. apply filter_In in H.
+  destruct H as [_ H]. apply negb_true_iff in H. exact H.
+Qed.
+
+Lemma extra_lines_cons : forall n v r,
+  extra_lines ((n, v) :: r) = fix_name n ++ B": " ++ v ++ crlf ++ extra_lines r.
+Proof.
+  intros n v r. unfold extra_lines. cbn [map concat]. unfold extra_line at 1. cbn [fst snd].
+  rewrite <- !app_assoc. reflexivity.
+Qed.
+
+Lemma write_extra_spec : forall rest, Forall (fun nv => is_required (fst nv) = false) rest ->
+  write_extra rest = if values_visible rest then HOk (extra_lines rest) else HErr HEUtf8.
+Proof.
+  induction rest as [|[n v] r IH]; intro H; [reflexivity|].
+  inversion H as [|x xs Hn Hr]; subst. cbn [fst] in Hn. cbn [write_extra].
+  fold (is_required n). rewrite Hn. unfold to_str. cbn [values_visible forallb snd].
+  destruct (forallb visible v); [|reflexivity]. cbn [andb]. fold (values_visible r).
+  rewrite (IH Hr). destruct (values_visible r); [|reflexivity].
+  rewrite extra_lines_cons. reflexivity.
+Qed.
+
+(* generate_request as one equation *)
+Lemma generate_request_spec : forall p hs,
+  generate_request (Some p) hs =
+  match hget B"sec-websocket-key" hs with
+  | None => HErr (HEProto (InvalidHeader B"sec-websocket-key"))
+  | Some kv =>
+      if forallb visible kv then
+        match req_check required_headers hs with
+        | Some e => HErr e
+        | None =>
+            if values_visible (extra_headers hs)
+            then HOk (B"GET " ++ p ++ B" HTTP/1.1" ++ crlf ++ req_lines required_headers hs ++
+                      extra_lines (extra_headers hs) ++ crlf, kv)
+            else HErr HEUtf8
+        end
+      else HErr HEUtf8
+  end.
+Proof.
+  intros p hs. unfold generate_request.
+  destruct (hget B"sec-websocket-key" hs) as [kv|]; [|reflexivity].
+  unfold to_str. destruct (forallb visible kv); [|reflexivity].
+  rewrite (write_required_spec required_headers hs required_names_nodup).
+  destruct (req_check required_headers hs); [reflexivity|].
+  fold required_names. rewrite hremove_all_required.
+  rewrite (write_extra_spec _ (extra_headers_not_required hs)).
+  destruct (values_visible (extra_headers hs)); reflexivity.
+Qed.
+
+Lemma generate_request_no_path : forall hs, generate_request None hs = HErr HEUrlNoPath.
+Proof. reflexivity. Qed.
+
+Definition request_bytes (p vh vc vu vv vk : bytes) (extra : headers) : bytes :=
+  B"GET " ++ p ++ B" HTTP/1.1" ++ crlf ++
+  B"Host: " ++ vh ++ crlf ++
+  B"Connection: " ++ vc ++ crlf ++
+  B"Upgrade: " ++ vu ++ crlf ++
+  B"Sec-WebSocket-Version: " ++ vv ++ crlf ++
+  B"Sec-WebSocket-Key: " ++ vk ++ crlf ++
+  extra_lines extra ++ crlf.
+
+Lemma req_check_none : forall req hs, req_check req hs = None <->
+  forall l, In l (map fst req) -> exists v, hget l hs = Some v /\ forallb visible v = true.
+Proof.
+  induction req as [|[l wn] r IH]; intro hs; cbn [req_check map fst In].
+  - split; [intros _ l [] | reflexivity].
+  - destruct (hget l hs) as [v|] eqn:Eg.
+    + destruct (forallb visible v) eqn:Ev.
+      * rewrite IH. split.
+        -- intros H l' [Hl|Hl]; [subst l'; exists v; auto | apply H; exact Hl].
+        -- intros H l' Hl. apply H. right. exact Hl.
+      * split; [discriminate|]. intro H. destruct (H l (or_introl eq_refl)) as [v' [H1 H2]]. congruence.
+    + split; [discriminate|]. intro H. destruct (H l (or_introl eq_refl)) as [v' [H1 H2]]. congruence.
+Qed.
+
+Lemma req_check_some : forall req hs e, req_check req hs = Some e ->
+  (e = HEUtf8 /\ exists l v, In l (map fst req) /\ hget l hs = Some v /\ forallb visible v = false) \/
+  (exists l, In l (map fst req) /\ hget l hs = None /\ e = HEProto (InvalidHeader l)).
+Proof.
+  induction req as [|[l wn] r IH]; intros hs e; cbn [req_check map fst In]; [discriminate|].
+  destruct (hget l hs) as [v|] eqn:Eg.
+  - destruct (forallb visible v) eqn:Ev.
+    + intro H. destruct (IH hs e H) as [[H1 [l' [v' [H2 H3]]]]|[l' [H1 H2]]].
+      * left. split; [exact H1|]. exists l', v'. auto.
+      * right. exists l'. auto.
+    + intro H. inversion H. left. split; [reflexivity|]. exists l, v. auto.
+  - intro H. inversion H. right. exists l. auto.
+Qed.
+
+Lemma hok_pair_inj : forall (A C : Type) (a c : A) (b d : C),
+  @HOk (A * C) (a, b) = HOk (c, d) -> a = c /\ b = d.
+Proof. intros A C a c b d H. inversion H. auto. Qed.
+
+(* C16_request_shape *)
+Lemma generate_request_ok_iff : forall p hs bytes key,
+  generate_request (Some p) hs = HOk (bytes, key) <->
+  exists vh vc vu vv,
+    hget B"host" hs = Some vh /\ hget B"connection" hs = Some vc /\ hget B"upgrade" hs = Some vu /\
+    hget B"sec-websocket-version" hs = Some vv /\ hget B"sec-websocket-key" hs = Some key /\
+    forallb visible vh = true /\ forallb visible vc = true /\ forallb visible vu = true /\
+    forallb visible vv = true /\ forallb visible key = true /\
+    values_visible (extra_headers hs) = true /\
+    bytes = request_bytes p vh vc vu vv key (extra_headers hs).
+Proof.
+  intros p hs bytes key. rewrite generate_request_spec. split.
+  - destruct (hget B"sec-websocket-key" hs) as [kv|] eqn:Ek; [|discriminate].
+    destruct (forallb visible kv) eqn:Evk; [|discriminate].
+    destruct (req_check required_headers hs) as [e|] eqn:Ec; [discriminate|].
+    destruct (values_visible (extra_headers hs)) eqn:Eex; [|discriminate].
+    intro H. apply hok_pair_inj in H. destruct H as [Hb Hkey]. subst key bytes.
+    pose proof (proj1 (req_check_none _ _) Ec) as Hall.
+    unfold required_headers in Hall. cbn [map fst In] in Hall.
+    destruct (Hall B"host" ltac:(auto)) as [vh [Hh Hvh]].
+    destruct (Hall B"connection" ltac:(auto)) as [vc [Hc Hvc]].
+    destruct (Hall B"upgrade" ltac:(auto)) as [vu [Hu Hvu]].
+    destruct (Hall B"sec-websocket-version" ltac:(auto)) as [vv [Hv Hvv]].
+    exists vh, vc, vu, vv. repeat (split; [first [assumption | reflexivity]|]).
+    unfold request_bytes, required_headers. cbn [req_lines]. unfold first_value.
+    rewrite Hh, Hc, Hu, Hv, Ek. rewrite <- !app_assoc. reflexivity.
+  - intros [vh [vc [vu [vv [Hh [Hc [Hu [Hv [Hk [Hvh [Hvc [Hvu [Hvv [Hvk [Hex Hb]]]]]]]]]]]]]]].
+    rewrite Hk, Hvk.
+    assert (req_check required_headers hs = None) as Ec.
+    { unfold required_headers. cbn [req_check]. rewrite Hh, Hvh, Hc, Hvc, Hu, Hvu, Hv, Hvv, Hk, Hvk. reflexivity. }
+    rewrite Ec, Hex. subst bytes. f_equal. f_equal.
+    unfold request_bytes, required_headers. cbn [req_lines]. unfold first_value.
+    rewrite Hh, Hc, Hu, Hv, Hk. rewrite <- !app_assoc. reflexivity.
+Qed.
+
+(* a missing required header is reported as InvalidHeader (unless a non-ASCII value is met first) *)
+Lemma generate_request_missing : forall p hs l, In l required_names -> hget l hs = None ->
+  exists e, generate_request (Some p) hs = HErr e /\
+    (e = HEUtf8 \/ exists l', In l' required_names /\ hget l' hs = None /\ e = HEProto (InvalidHeader l')).
+Proof.
+  intros p hs l Hl Hnone. rewrite generate_request_spec.
+  destruct (hget B"sec-websocket-key" hs) as [kv|] eqn:Ek.
+  - destruct (forallb visible kv); [|exists HEUtf8; auto].
+    destruct (req_check required_headers hs) as [e|] eqn:Ec.
+    + exists e. split; [reflexivity|]. destruct (req_check_some _ _ _ Ec) as [[H1 _]|[l' [H1 [H2 H3]]]]; [auto|].
+      right. exists l'. auto.
+    + exfalso. destruct (proj1 (req_check_none _ _) Ec l Hl) as [v [Hv _]]. congruence.
+  - exists (HEProto (InvalidHeader B"sec-websocket-key")). split; [reflexivity|]. right.
+    exists B"sec-websocket-key". split; [|auto]. unfold required_names, required_headers. cbn [map fst In]. auto 6.
+Qed.
+
+(* with ASCII values the error is exactly InvalidHeader of a missing name *)
+Lemma generate_request_missing_ascii : forall p hs l, In l required_names -> hget l hs = None ->
+  values_visible hs = true ->
+  exists l', In l' required_names /\ hget l' hs = None /\
+             generate_request (Some p) hs = HErr (HEProto (InvalidHeader l')).
+Proof.
+  intros p hs l Hl Hnone Hvis.
+  assert (forall n v, hget n hs = Some v -> forallb visible v = true) as Hv.
+  { intros n v Hg. apply hget_some_in in Hg. unfold values_visible in Hvis.
+    rewrite forallb_forall in Hvis. exact (Hvis _ Hg). }
+  rewrite generate_request_spec.
+  destruct (hget B"sec-websocket-key" hs) as [kv|] eqn:Ek.
+  - rewrite (Hv _ _ Ek).
+    destruct (req_check required_headers hs) as [e|] eqn:Ec.
+    + destruct (req_check_some _ _ _ Ec) as [[_ [l' [v [_ [H2 H3]]]]]|[l' [H1 [H2 H3]]]].
+      * rewrite (Hv _ _ H2) in H3. discriminate.
+      * exists l'. subst e. auto.
+    + exfalso. destruct (proj1 (req_check_none _ _) Ec l Hl) as [v [Hv' _]]. congruence.
+  - exists B"sec-websocket-key". split; [|auto]. unfold required_names, required_headers. cbn [map fst In]. auto 6.
+Qed.
+
+(* the lines after the five required ones never carry a required name (names are lower-case in the model) *)
+Lemma eq_ic_fix_name : forall n, eq_ic (fix_name n) n = true.
+Proof.
+  intro n. unfold fix_name.
+  destruct (bytes_eqb n B"sec-websocket-protocol") eqn:E1; [apply bytes_eqb_eq in E1; subst; reflexivity|].
+  destruct (bytes_eqb n B"origin") eqn:E2; [apply bytes_eqb_eq in E2; subst; reflexivity|].
+  apply eq_ic_refl.
+Qed.
+
+Lemma extra_name_not_required : forall n, map lower n = n -> is_required n = false ->
+  forall q, In q required_headers -> eq_ic (fix_name n) (snd q) = false.
+Proof.
+  intros n Hlow Hreq q Hq. destruct (eq_ic (fix_name n) (snd q)) eqn:E; [|reflexivity]. exfalso.
+  assert (eq_ic n (snd q) = true) as E'.
+  { apply (eq_ic_trans _ (fix_name n)); [rewrite eq_ic_sym; apply eq_ic_fix_name | exact E]. }
+  apply eq_ic_iff in E'. rewrite Hlow in E'.
+  assert (is_required n = true) as Ht.
+  { unfold is_required. apply existsb_exists. exists q. split; [exact Hq|].
+    apply bytes_eqb_eq. subst n. unfold required_headers in Hq. cbn [In] in Hq.
+    destruct Hq as [Hq|[Hq|[Hq|[Hq|[Hq|[]]]]]]; subst q; reflexivity. }
+  congruence.
+Qed.
+
+(* ------------------------------------------------------------------------------------------ *)
+(** * Client: IntoClientRequest for Uri *)
+
+Lemma after_last_at_spec : forall s acc,
+  (~ In 64 s /\ after_last_at s acc = acc) \/
+  (exists pre, s = pre ++ 64 :: after_last_at s acc /\ ~ In 64 (after_last_at s acc)).
+Proof.
+  induction s as [|b r IH]; intro acc; cbn [after_last_at].
+  - left. split; [intros [] | reflexivity].
+  - destruct (b =? 64) eqn:Eb.
+    + apply N.eqb_eq in Eb. subst b. right. destruct (IH r) as [[Hno Hr]|[pre [Hr Hno]]].
+      * exists []. rewrite Hr. split; [reflexivity | exact Hno].
+      * exists (64 :: pre). split; [cbn [app]; f_equal; exact Hr | exact Hno].
+    + apply N.eqb_neq in Eb. destruct (IH acc) as [[Hno Hr]|[pre [Hr Hno]]].
+      * left. split; [|exact Hr]. intros [H|H]; [congruence | exact (Hno H)].
+      * right. exists (b :: pre). split; [cbn [app]; f_equal; exact Hr | exact Hno].
+Qed.
+
+(* Host = the authority after its LAST '@' (the whole authority when there is none) *)
+Lemma host_of_authority_spec : forall a,
+  ~ In 64 (host_of_authority a) /\
+  ((~ In 64 a /\ host_of_authority a = a) \/ exists userinfo, a = userinfo ++ 64 :: host_of_authority a).
+Proof.
+  intro a. unfold host_of_authority. destruct (after_last_at_spec a a) as [[Hno Hr]|[pre [Hr Hno]]].
+  - rewrite Hr. split; [exact Hno|]. left. auto.
+  - split; [exact Hno|]. right. exists pre. exact Hr.
+Qed.
+
+(* ... and that determines it *)
+Lemma host_of_authority_unique : forall userinfo host,
+  ~ In 64 host -> host_of_authority (userinfo ++ 64 :: host) = host.
+Proof.
+  intros userinfo host Hno.
+  destruct (host_of_authority_spec (userinfo ++ 64 :: host)) as [Hno' [[Hin _]|[u' Hu]]].
+  - exfalso. apply Hin. apply in_or_app. right. left. reflexivity.
+  - set (h := host_of_authority (userinfo ++ 64 :: host)) in *.
+    (* two decompositions at an '@' followed by an '@'-free suffix coincide *)
+    clearbody h. revert u' Hu. induction userinfo as [|x u IH]; intros u' Hu.
+    + destruct u' as [|y u'']; cbn [app] in Hu.
+      * inversion Hu. reflexivity.
+      * inversion Hu; subst. exfalso. apply Hno. apply in_or_app. right. left. reflexivity.
+    + destruct u' as [|y u'']; cbn [app] in Hu.
+      * inversion Hu; subst. exfalso. apply Hno'. apply in_or_app. right. left. reflexivity.
+      * inversion Hu; subst. apply (IH u''). assumption.
+Qed.
+
+Definition client_headers (host key : bytes) : headers :=
+  [(B"host", host); (B"connection", B"Upgrade"); (B"upgrade", B"websocket");
+   (B"sec-websocket-version", B"13"); (B"sec-websocket-key", key)].
+
+Lemma into_client_request_spec : forall authority key,
+  into_client_request authority key =
+  match authority with
+  | None => HErr HEUrlNoHost
+  | Some a => if match host_of_authority a with [] => true | _ => false end
+              then HErr HEUrlEmptyHost else HOk (client_headers (host_of_authority a) key)
+  end.
+Proof.
+  intros [a|] key; [|reflexivity]. unfold into_client_request.
+  destruct (host_of_authority a); reflexivity.
+Qed.
+
+Lemma into_client_request_ok_iff : forall authority key hs,
+  into_client_request authority key = HOk hs <->
+  exists a, authority = Some a /\ host_of_authority a <> [] /\ hs = client_headers (host_of_authority a) key.
+Proof.
+  intros authority key hs. rewrite into_client_request_spec. split.
+  - destruct authority as [a|]; [|discriminate]. destruct (host_of_authority a) as [|x xs] eqn:E; [discriminate|].
+    intro H. inversion H. exists a. split; [reflexivity|]. rewrite E. split; [discriminate | reflexivity].
+  - intros [a [Ha [Hne Hhs]]]. subst. destruct (host_of_authority a); [contradiction | reflexivity].
+Qed.
+
+(* C16_self_accept: the header set produced from a URI passes the server's create_parts *)
+Lemma client_headers_accepted : forall host key,
+  create_parts true true (client_headers host key) = HOk (accept_headers key).
+Proof. intros host key. reflexivity. Qed.
+
+(* ... and it serialises: the request for a URI *)
+Lemma generate_request_client_headers : forall p host key,
+  forallb visible host = true -> forallb visible key = true ->
+  generate_request (Some p) (client_headers host key) =
+  HOk (request_bytes p host B"Upgrade" B"websocket" B"13" key [], key).
+Proof.
+  intros p host key Hh Hk. apply generate_request_ok_iff.
+  exists host, B"Upgrade", B"websocket", B"13". repeat (split; [first [assumption | reflexivity]|]). reflexivity.
+Qed.
+
+(* ------------------------------------------------------------------------------------------ *)
+(** * Client: verify_response *)
+
+Definition resp_conn_ok (hs : headers) : Prop :=
+  exists c, hget B"connection" hs = Some c /\ eq_ic c B"Upgrade" = true.
+Definition resp_subproto_ok (hs : headers) (subs : option (list bytes)) : Prop :=
+  match hget B"sec-websocket-protocol" hs, subs with
+  | None, None => True
+  | Some ret, Some offered => forallb visible ret = true /\ In ret offered
+  | _, _ => False
+  end.
+
+Definition resp_upg_okb (hs : headers) : bool := hs_upg_okb hs.
+Definition resp_conn_okb (hs : headers) : bool :=
+  match hget B"connection" hs with
+  | Some h => match to_str h with Some s => eq_ic s B"Upgrade" | None => false end
+  | None => false end.
+Definition resp_accept_okb (akey : bytes) (hs : headers) : bool :=
+  match hget B"sec-websocket-accept" hs with Some h => bytes_eqb h akey | None => false end.
+
+Lemma verify_response_unfold : forall akey subs r,
+  verify_response akey subs r =
+  if negb (resp_status r =? 101) then HErr (HEHttp (resp_status r) None) else
+  if negb (resp_upg_okb (resp_headers r)) then HErr (HEProto MissingUpgradeWebSocketHeader) else
+  if negb (resp_conn_okb (resp_headers r)) then HErr (HEProto MissingConnectionUpgradeHeader) else
+  if negb (resp_accept_okb akey (resp_headers r)) then HErr (HEProto SecWebSocketAcceptKeyMismatch) else
+  match hget B"sec-websocket-protocol" (resp_headers r), subs with
+  | None, Some _ => HErr (HEProto SubNoSubProtocol)
+  | Some _, None => HErr (HEProto SubServerSentNoneRequested)
+  | Some ret, Some offered =>
+      match to_str ret with
+      | None => HErr HEUtf8
+      | Some s => if existsb (bytes_eqb s) offered then HOk r else HErr (HEProto SubInvalidSubProtocol)
+      end
+  | None, None => HOk r
+  end.
+Proof. reflexivity. Qed.
+
+Lemma upgrade_visible : forallb visible B"Upgrade" = true.
+Proof. reflexivity. Qed.
+
+Lemma resp_conn_okb_iff : forall hs, resp_conn_okb hs = true <-> resp_conn_ok hs.
+Proof.
+  intro hs. unfold resp_conn_okb, resp_conn_ok. destruct (hget B"connection" hs) as [c|]; split.
+  - intro H. exists c. unfold to_str in H. destruct (forallb visible c); [auto | discriminate].
+  - intros [c' [H1 H2]]. inversion H1; subst c'. unfold to_str.
+    rewrite (eq_ic_visible _ _ H2 upgrade_visible). exact H2.
+  - discriminate.
+  - intros [c' [H1 _]]. discriminate.
+Qed.
+
+Lemma existsb_bytes_eqb_in : forall s l, existsb (bytes_eqb s) l = true <-> In s l.
+Proof.
+  intros s l. rewrite existsb_exists. split.
+  - intros [x [Hin He]]. apply bytes_eqb_eq in He. subst. exact Hin.
+  - intro H. exists s. split; [exact H | apply bytes_eqb_refl].
+Qed.
+
+(* C16_verify_iff *)
+Lemma verify_response_ok_iff : forall akey subs r r',
+  verify_response akey subs r = HOk r' <->
+  r' = r /\ resp_status r = 101 /\ upg_ok (resp_headers r) /\ resp_conn_ok (resp_headers r) /\
+  hget B"sec-websocket-accept" (resp_headers r) = Some akey /\
+  resp_subproto_ok (resp_headers r) subs.
+Proof.
+  intros akey subs r r'. rewrite verify_response_unfold.
+  rewrite <- resp_conn_okb_iff, <- hs_upg_okb_iff. unfold resp_upg_okb, resp_accept_okb, resp_subproto_ok.
+  destruct (resp_status r =? 101) eqn:Es; cbn [negb].
+  2:{ split; [discriminate|]. intros [_ [H _]]. apply N.eqb_neq in Es. contradiction. }
+  apply N.eqb_eq in Es.
+  destruct (hs_upg_okb (resp_headers r)); cbn [negb]; [|split; [discriminate | intros [_ [_ [H _]]]; discriminate]].
+  destruct (resp_conn_okb (resp_headers r)); cbn [negb]; [|split; [discriminate | intros [_ [_ [_ [H _]]]]; discriminate]].
+  destruct (hget B"sec-websocket-accept" (resp_headers r)) as [a|]; cbn [negb].
+  2:{ split; [discriminate | intros [_ [_ [_ [_ [H _]]]]]; discriminate]. }
+  destruct (bytes_eqb a akey) eqn:Ea; cbn [negb].
+  2:{ split; [discriminate|]. intros [_ [_ [_ [_ [H _]]]]]. inversion H; subst. rewrite bytes_eqb_refl in Ea. discriminate. }
+  apply bytes_eqb_eq in Ea. subst a.
+  destruct (hget B"sec-websocket-protocol" (resp_headers r)) as [ret|], subs as [offered|].
+  - unfold to_str. destruct (forallb visible ret) eqn:Ev.
+    + destruct (existsb (bytes_eqb ret) offered) eqn:Ei.
+      * apply existsb_bytes_eqb_in in Ei. split; [intro H; inversion H; subst; repeat split; auto | intros [H _]; subst; reflexivity].
+      * split; [discriminate|]. intros [_ [_ [_ [_ [_ [_ H]]]]]]. apply existsb_bytes_eqb_in in H. congruence.
+    + split; [discriminate|]. intros [_ [_ [_ [_ [_ [H _]]]]]]. discriminate.
+  - split; [discriminate | intros [_ [_ [_ [_ [_ []]]]]]].
+  - split; [discriminate | intros [_ [_ [_ [_ [_ []]]]]]].
+  - split; [intro H; inversion H; subst; repeat split; auto | intros [H _]; subst; reflexivity].
+Qed.
+
+(* an accept value that differs from the expected one in any way is refused *)
+Lemma verify_response_accept_mismatch : forall akey subs r v,
+  hget B"sec-websocket-accept" (resp_headers r) = Some v -> v <> akey ->
+  exists e, verify_response akey subs r = HErr e /\
+    (resp_status r = 101 -> upg_ok (resp_headers r) -> resp_conn_ok (resp_headers r) ->
+     e = HEProto SecWebSocketAcceptKeyMismatch).
+Proof.
+  intros akey subs r v Hv Hne. rewrite verify_response_unfold.
+  destruct (resp_status r =? 101) eqn:Es; cbn [negb].
+  2:{ eexists. split; [reflexivity|]. intro H. apply N.eqb_neq in Es. contradiction. }
+  destruct (resp_upg_okb (resp_headers r)) eqn:Eu; cbn [negb].
+  2:{ eexists. split; [reflexivity|]. intros _ H. apply hs_upg_okb_iff in H. unfold resp_upg_okb in Eu. congruence. }
+  destruct (resp_conn_okb (resp_headers r)) eqn:Ec; cbn [negb].
+  2:{ eexists. split; [reflexivity|]. intros _ _ H. apply resp_conn_okb_iff in H. congruence. }
+  unfold resp_accept_okb. rewrite Hv. apply bytes_eqb_neq in Hne. rewrite Hne. cbn [negb].
+  eexists. split; reflexivity.
+Qed.
+
+(* single-character changes are a special case: same length, one position differs *)
+Lemma single_char_change_neq : forall (pre post : bytes) (c c' : N),
+  c <> c' -> pre ++ c' :: post <> pre ++ c :: post.
+Proof. intros pre post c c' Hc E. apply app_inv_head in E. inversion E. congruence. Qed.
+
+Lemma verify_response_err_class : forall akey subs r e, verify_response akey subs r = HErr e ->
+  e = HEHttp (resp_status r) None \/ e = HEUtf8 \/
+  exists p, e = HEProto p /\
+    (p = MissingUpgradeWebSocketHeader \/ p = MissingConnectionUpgradeHeader \/ p = SecWebSocketAcceptKeyMismatch \/
+     p = SubNoSubProtocol \/ p = SubServerSentNoneRequested \/ p = SubInvalidSubProtocol).
+Proof.
+  intros akey subs r e. rewrite verify_response_unfold.
+  destruct (negb (resp_status r =? 101)); [intro H; inversion H; auto|].
+  destruct (negb (resp_upg_okb (resp_headers r))); [intro H; inversion H; right; right; eexists; split; [reflexivity | auto]|].
+  destruct (negb (resp_conn_okb (resp_headers r))); [intro H; inversion H; right; right; eexists; split; [reflexivity | auto]|].
+  destruct (negb (resp_accept_okb akey (resp_headers r))); [intro H; inversion H; right; right; eexists; split; [reflexivity | auto]|].
+  destruct (hget B"sec-websocket-protocol" (resp_headers r)) as [ret|], subs as [offered|].
+  - destruct (to_str ret); [|intro H; inversion H; auto].
+    destruct (existsb (bytes_eqb b) offered); [discriminate|].
+    intro H; inversion H; right; right; eexists; split; [reflexivity | auto 8].
+  - intro H; inversion H; right; right; eexists; split; [reflexivity | auto 8].
+  - intro H; inversion H; right; right; eexists; split; [reflexivity | auto 8].
+  - discriminate.
+Qed.
+
+(* ------------------------------------------------------------------------------------------ *)
+(** * Client handshake: outcomes *)
+
+Lemma generate_request_nonempty : forall path hs req key,
+  generate_request path hs = HOk (req, key) -> req <> [].
+Proof.
+  intros [p|] hs req key; [|discriminate]. rewrite generate_request_spec.
+  destruct (hget B"sec-websocket-key" hs) as [kv|]; [|discriminate].
+  destruct (forallb visible kv); [|discriminate].
+  destruct (req_check required_headers hs); [discriminate|].
+  destruct (values_visible (extra_headers hs)); [|discriminate].
+  intro H. apply hok_pair_inj in H. destruct H as [H _]. subst req. discriminate.
+Qed.
+
+Section ClientThms.
+  Variable oracle_req : bytes -> oracle_out raw_req.
+  Variable oracle_resp : bytes -> oracle_out raw_resp.
+  Notation pparse := (resp_parser oracle_resp).
+  Notation chake := (client_handshake oracle_req oracle_resp).
+
+  (* how the reading stage of a client can end, given all the bytes it read *)
+  Definition cli_reading_outcome (akey : bytes) (subs : option (list bytes)) (res : hs_result) (data : bytes) : Prop :=
+    res = HsBlocked \/
+    (exists e, res = HsFail e /\
+       ((exists k, e = HEIo k) \/ e = HEProto HandshakeIncomplete \/ e = HEAttack \/ pparse data = PFail e)) \/
+    (exists n resp, pparse data = PComplete n resp /\ res = client_read_result akey subs (RDone n resp data)).
+
+  Definition cli_not_started (scheme_ok : bool) (path : option bytes) (hs : headers) (res : hs_result) : Prop :=
+    (scheme_ok = false /\ res = HsFail HEUrlScheme) \/
+    (scheme_ok = true /\ exists e, extract_subprotocols hs = HErr e /\ res = HsFail e) \/
+    (scheme_ok = true /\ (exists subs, extract_subprotocols hs = HOk subs) /\
+     exists e, generate_request path hs = HErr e /\ res = HsFail e).
+
+  Lemma client_cases : forall scheme_ok path hs w res w' hlog, chake scheme_ok path hs w = (res, w', hlog) ->
+    (hlog = [] /\ w' = w /\ cli_not_started scheme_ok path hs res) \/
+    exists subs req key rem,
+      scheme_ok = true /\ extract_subprotocols hs = HOk subs /\ generate_request path hs = HOk (req, key) /\
+      req = hs_wire hlog ++ rem /\
+      ((has_read_ev hlog = false /\ (res = HsBlocked \/ exists k, res = HsFail (HEIo k))) \/
+       (rem = [] /\ has_flush_ev hlog = true /\
+        cli_reading_outcome (derive_accept_key key) subs res (hs_data_read hlog))).
+  Proof.
+    intros scheme_ok path hs w res w' hlog. rewrite client_handshake_run. unfold client_run.
+    destruct scheme_ok; cbn [negb].
+    2:{ intro H. inversion H. left. unfold cli_not_started. auto. }
+    destruct (extract_subprotocols hs) as [subs|e] eqn:Es.
+    2:{ intro H. inversion H. left. unfold cli_not_started. split; [reflexivity|]. split; [reflexivity|].
+        right. left. split; [reflexivity|]. exists e. auto. }
+    destruct (generate_request path hs) as [[req key]|e] eqn:Eg.
+    2:{ intro H. inversion H. left. unfold cli_not_started. split; [reflexivity|]. split; [reflexivity|].
+        right. right. split; [reflexivity|]. split; [exists subs; exact Es|]. exists e. auto. }
+    destruct (wr_stage (w_wrs w) req) as [[o1 wrs'] ev1] eqn:E1.
+    destruct (wr_stage_events _ _ _ _ _ E1) as [Hr1 [Hf1 [[rem [Hrem Hrem']] [_ [Hio _]]]]].
+    intro H. right. exists subs, req, key.
+    destruct o1.
+    - inversion H; subst res w' hlog. exists rem. repeat (split; [first [reflexivity | assumption]|]). left. auto.
+    - inversion H; subst res w' hlog. exists rem. repeat (split; [first [reflexivity | assumption]|]). left.
+      split; [exact Hr1|]. right. destruct (Hio e eq_refl) as [k Hk]. exists k. congruence.
+    - exfalso. apply (generate_request_nonempty _ _ _ _ Eg). exact (wr_stage_panic _ _ _ _ E1).
+    - destruct (fl_stage (w_fls w)) as [[o2 fls'] ev2] eqn:E2.
+      destruct (fl_stage_events _ _ _ _ E2) as [Hw2 [Hr2 [Hlast2 _]]].
+      assert (hs_wire (ev1 ++ ev2) = hs_wire ev1) as Hwire12.
+      { rewrite hs_wire_app, (no_write_ev_wire _ Hw2), app_nil_r. reflexivity. }
+      assert (has_read_ev (ev1 ++ ev2) = false) as Hread12.
+      { rewrite has_read_ev_app, Hr1, Hr2. reflexivity. }
+      destruct o2.
+      + inversion H; subst res w' hlog. exists rem. rewrite Hwire12.
+        repeat (split; [first [reflexivity | assumption]|]). left. auto.
+      + inversion H; subst res w' hlog. exists rem. rewrite Hwire12.
+        repeat (split; [first [reflexivity | assumption]|]). left. split; [exact Hread12|]. right. exists k. reflexivity.
+      + destruct (rd_stage pparse (w_rds w) [] 0 0) as [[o3 rds'] ev3] eqn:E3.
+        destruct (rd_stage_events _ _ _ _ _ _ _ _ _ E3) as [Hw3 [Hf3 [Hd3 _]]].
+        inversion H; subst res w' hlog. exists rem.
+        rewrite !hs_wire_app, (no_write_ev_wire _ Hw2), (no_write_ev_wire _ Hw3), !app_nil_r.
+        repeat (split; [first [reflexivity | assumption]|]). right.
+        split; [apply Hrem'; reflexivity|]. split.
+        { rewrite !has_flush_ev_app. destruct (Hlast2 eq_refl) as [pre Hpre]. rewrite Hpre, has_flush_ev_app.
+          cbn. rewrite !orb_true_r. reflexivity. }
+        rewrite !hs_data_read_app, (no_read_ev_data _ Hr1), (no_read_ev_data _ Hr2). cbn [app].
+        unfold cli_reading_outcome. destruct o3 as [|e|n resp buf].
+        * left. reflexivity.
+        * right. left. exists e. split; [reflexivity|]. exact (rd_stage_fail _ _ _ _ _ _ _ _ _ E3).
+        * right. right. destruct (Hd3 _ _ _ eq_refl) as [Hbuf Hp]. cbn [app] in Hbuf. subst buf.
+          exists n, resp. auto.
+  Qed.
+
+  Lemma client_read_result_done : forall akey subs o r tail,
+    client_read_result akey subs o = HsDone r tail ->
+    exists n resp buf r', o = RDone n resp buf /\ r = Client /\ tail = dropN n buf /\
+                          verify_response akey subs resp = HOk r'.
+  Proof.
+    intros akey subs o r tail. destruct o as [|e|n resp buf]; cbn [client_read_result]; try discriminate.
+    cbv zeta. destruct (verify_response akey subs resp) as [r'|e] eqn:Ev.
+    - intro H. inversion H. exists n, resp, buf, r'. auto.
+    - destruct e; discriminate.
+  Qed.
+
+  (* C16_tail (and what a successful client handshake means) *)
+  Theorem client_done_shape : forall scheme_ok path hs w r tail w' hlog,
+    chake scheme_ok path hs w = (HsDone r tail, w', hlog) ->
+    r = Client /\ scheme_ok = true /\
+    exists subs req key n raw,
+      extract_subprotocols hs = HOk subs /\ generate_request path hs = HOk (req, key) /\
+      hs_wire hlog = req /\ has_flush_ev hlog = true /\
+      oracle_resp (hs_data_read hlog) = OComplete n raw /\ 1 <= rs_version raw /\ rs_fmt_ok raw = true /\
+      verify_response (derive_accept_key key) subs (mkResponse (rs_code raw) (rs_headers raw))
+        = HOk (mkResponse (rs_code raw) (rs_headers raw)) /\
+      tail = dropN n (hs_data_read hlog) /\
+      hs_data_read hlog = takeN n (hs_data_read hlog) ++ tail.
+  Proof.
+    intros scheme_ok path hs w r tail w' hlog H.
+    destruct (client_cases _ _ _ _ _ _ _ H) as [[_ [_ Hns]]|[subs [req [key [rem [Hs [Hsub [Hgen [Hw Hcases]]]]]]]]].
+    - exfalso. destruct Hns as [[_ Hc]|[[_ [e [_ Hc]]]|[_ [_ [e [_ Hc]]]]]]; discriminate.
+    - destruct Hcases as [[_ [Hc|[k Hc]]]|[Hrem [Hfl Hout]]]; try discriminate.
+      subst rem. rewrite app_nil_r in Hw.
+      destruct Hout as [Hc|[[e [Hc _]]|[n [resp [Hp Hres]]]]]; try discriminate.
+      symmetry in Hres. apply client_read_result_done in Hres.
+      destruct Hres as [n' [resp' [buf' [r' [Ho [Hr [Ht Hv]]]]]]]. inversion Ho; subst n' resp' buf'.
+      unfold resp_parser in Hp. apply try_parse_response_complete in Hp.
+      destruct Hp as [raw [Horacle [Hver [Hfmt Hresp]]]]. subst resp.
+      split; [exact Hr|]. split; [exact Hs|].
+      exists subs, req, key, n, raw.
+      assert (r' = mkResponse (rs_code raw) (rs_headers raw)) as Hr'.
+      { apply verify_response_ok_iff in Hv. tauto. }
+      subst r'. repeat (split; [first [assumption | reflexivity | symmetry; assumption]|]).
+      subst tail. symmetry. apply take_drop.
+  Qed.
+
+  (* whatever happens, the bytes on the wire are a prefix of the one request, and the client reads
+     nothing before the whole request was accepted and flushed *)
+  Theorem client_wire_prefix : forall scheme_ok path hs w res w' hlog,
+    chake scheme_ok path hs w = (res, w', hlog) ->
+    (forall e, generate_request path hs = HErr e -> hlog = []) /\
+    (forall req key, generate_request path hs = HOk (req, key) ->
+       (exists rem, hs_wire hlog ++ rem = req) /\
+       (has_read_ev hlog = true -> hs_wire hlog = req /\ has_flush_ev hlog = true)).
+  Proof.
+    intros scheme_ok path hs w res w' hlog H.
+    destruct (client_cases _ _ _ _ _ _ _ H) as [[Hl _]|[subs [req [key [rem [Hs [Hsub [Hgen [Hw Hcases]]]]]]]]].
+    - subst hlog. split; [reflexivity|]. intros req key _. split; [exists req; reflexivity | discriminate].
+    - split; [intros e He; congruence|]. intros req' key' Hg. rewrite Hgen in Hg.
+      apply hok_pair_inj in Hg. destruct Hg as [Hreq Hkey]. subst req' key'.
+      split; [exists rem; auto|]. intro Hrd.
+      destruct Hcases as [[Hno _]|[Hrem [Hfl _]]]; [congruence|]. subst rem. rewrite app_nil_r in Hw. auto.
+  Qed.
+
+  (* the run that goes through: request accepted by the transport (any partial-write pattern), flushed,
+     then the result is decided by the reading stage and verify_response alone *)
+  Theorem client_completes : forall path hs w subs req key pre post j fpost o rds' ev3,
+    extract_subprotocols hs = HOk subs -> generate_request path hs = HOk (req, key) ->
+    w_wrs w = pre ++ post -> Forall wr_friendly pre -> blen req <= wr_capacity pre ->
+    w_fls w = repeat (FlErr WouldBlock) j ++ FlOk :: fpost ->
+    rd_stage pparse (w_rds w) [] 0 0 = (o, rds', ev3) ->
+    exists w' hlog,
+      chake true path hs w = (client_read_result (derive_accept_key key) subs o, w', hlog) /\
+      hs_wire hlog = req /\ hs_data_read hlog = hs_data_read ev3 /\ w_rds w' = rds'.
+  Proof.
+    intros path hs w subs req key pre post j fpost o rds' ev3 Hsub Hgen Hwrs Hfr Hcap Hfls Hrd.
+    rewrite client_handshake_run. unfold client_run. cbn [negb]. rewrite Hsub, Hgen.
+    destruct (wr_stage_complete pre post req (generate_request_nonempty _ _ _ _ Hgen) Hfr Hcap) as [wrs' [ev1 [Hwr Hwire]]].
+    rewrite Hwrs, Hwr. destruct (fl_stage_complete j fpost) as [ev2 Hfl]. rewrite Hfls, Hfl, Hrd.
+    destruct (wr_stage_events _ _ _ _ _ Hwr) as [Hr1 _].
+    destruct (fl_stage_events _ _ _ _ Hfl) as [Hw2 [Hr2 _]].
+    destruct (rd_stage_events _ _ _ _ _ _ _ _ _ Hrd) as [Hw3 _].
+    eexists _, _. split; [reflexivity|].
+    rewrite !hs_wire_app, !hs_data_read_app, (no_write_ev_wire _ Hw2), (no_write_ev_wire _ Hw3),
+      (no_read_ev_data _ Hr1), (no_read_ev_data _ Hr2), !app_nil_r. cbn [app].
+    repeat split; auto.
+  Qed.
+
+  (* with a complete response head in the reading stage: WebSocket iff verify_response accepts; the
+     tail handed to the new socket is the cumulative buffer after the head *)
+  Lemma client_read_result_complete : forall akey subs n resp buf,
+    (forall r', verify_response akey subs resp = HOk r' ->
+       client_read_result akey subs (RDone n resp buf) = HsDone Client (dropN n buf)) /\
+    (forall e, verify_response akey subs resp = HErr e ->
+       exists e', client_read_result akey subs (RDone n resp buf) = HsFail e' /\
+                  ((forall s b, e <> HEHttp s b) -> e' = e) /\
+                  (forall s b, e = HEHttp s b -> e' = HEHttp s (Some (dropN n buf)))).
+  Proof.
+    intros akey subs n resp buf. cbn [client_read_result]. cbv zeta. split.
+    - intros r' H. rewrite H. reflexivity.
+    - intros e H. rewrite H. destruct e; try (eexists; split; [reflexivity|]; split; [reflexivity | discriminate]).
+      eexists. split; [reflexivity|]. split.
+      + intro Hn. exfalso. exact (Hn _ _ eq_refl).
+      + intros s b E. inversion E. reflexivity.
+  Qed.
+End ClientThms.
+
+(* ------------------------------------------------------------------------------------------ *)
+(** * Summary lemmas for C16 *)
+
+(* C16_from_uri in one statement *)
+Lemma into_client_request_shape : forall authority key hs,
+  into_client_request authority key = HOk hs ->
+  exists a host, authority = Some a /\ host = host_of_authority a /\ host <> [] /\ ~ In 64 host /\
+    ((~ In 64 a /\ host = a) \/ exists userinfo, a = userinfo ++ 64 :: host) /\
+    hs = [(B"host", host); (B"connection", B"Upgrade"); (B"upgrade", B"websocket");
+          (B"sec-websocket-version", B"13"); (B"sec-websocket-key", key)].
+Proof.
+  intros authority key hs H. apply into_client_request_ok_iff in H. destruct H as [a [Ha [Hne Hhs]]].
+  destruct (host_of_authority_spec a) as [Hno Hdec].
+  exists a, (host_of_authority a). repeat (split; [first [assumption | reflexivity]|]). exact Hhs.
+Qed.
+
+Lemma into_client_request_errors : forall authority key,
+  (authority = None -> into_client_request authority key = HErr HEUrlNoHost) /\
+  (forall a, authority = Some a -> host_of_authority a = [] -> into_client_request authority key = HErr HEUrlEmptyHost).
+Proof.
+  intros authority key. split.
+  - intro H. subst. reflexivity.
+  - intros a H Hh. subst. unfold into_client_request. rewrite Hh. reflexivity.
+Qed.
+
+(* C16_self_accept *)
+Lemma into_client_request_accepted : forall authority key hs,
+  into_client_request authority key = HOk hs ->
+  create_parts true true hs = HOk (accept_headers key) /\
+  (forall p, forallb visible key = true -> forallb visible (first_value B"host" hs) = true ->
+     generate_request (Some p) hs =
+     HOk (request_bytes p (first_value B"host" hs) B"Upgrade" B"websocket" B"13" key [], key)).
+Proof.
+  intros authority key hs H. apply into_client_request_ok_iff in H. destruct H as [a [Ha [Hne Hhs]]]. subst hs.
+  split; [apply client_headers_accepted|].
+  intros p Hk Hh. apply generate_request_client_headers; assumption.
+Qed.
+
+Lemma verify_response_single_char : forall akey subs r (pre post : bytes) (c c' : N),
+  akey = pre ++ c :: post -> c' <> c ->
+  hget B"sec-websocket-accept" (resp_headers r) = Some (pre ++ c' :: post) ->
+  exists e, verify_response akey subs r = HErr e /\
+    (resp_status r = 101 -> upg_ok (resp_headers r) -> resp_conn_ok (resp_headers r) ->
+     e = HEProto SecWebSocketAcceptKeyMismatch).
+Proof.
+  intros akey subs r pre post c c' Hk Hc Hg. apply (verify_response_accept_mismatch akey subs r _ Hg).
+  subst akey. apply single_char_change_neq. congruence.
+Qed.
+
+(* ------------------------------------------------------------------------------------------ *)
+(** * A reference reader for request heads (lines end in CRLF; name/value cut at the first ':')
+   and the round trip  generate_request -> reader *)
+
+Fixpoint cut_crlf (s : bytes) : option (bytes * bytes) :=
+  match s with
+  | [] => None
+  | b :: r =>
+      if (b =? 13) && (match r with c :: _ => c =? 10 | [] => false end) then Some ([], tl r)
+      else match cut_crlf r with Some (l, rest) => Some (b :: l, rest) | None => None end
+  end.
+
+Fixpoint cut_at (c : N) (s : bytes) : option (bytes * bytes) :=
+  match s with
+  | [] => None
+  | b :: r => if b =? c then Some ([], r)
+              else match cut_at c r with Some (l, rest) => Some (b :: l, rest) | None => None end
+  end.
+
+Definition parse_header_line (l : bytes) : option (bytes * bytes) :=
+  match cut_at 58 l with
+  | Some (n, v) => Some (n, match v with b :: v' => if b =? 32 then v' else v | [] => [] end)
+  | None => None
+  end.
+
+Definition parse_request_line (l : bytes) : option (bytes * bytes * bytes) :=
+  match cut_at 32 l with
+  | Some (m, r) => match cut_at 32 r with Some (p, v) => Some (m, p, v) | None => None end
+  | None => None
+  end.
+
+Fixpoint parse_headers (fuel : nat) (s : bytes) : option (list (bytes * bytes) * bytes) :=
+  match fuel with
+  | O => None
+  | S f =>
+      match cut_crlf s with
+      | None => None
+      | Some ([], rest) => Some ([], rest)
+      | Some (l, rest) =>
+          match parse_header_line l, parse_headers f rest with
+          | Some nv, Some (hs, tail) => Some (nv :: hs, tail)
+          | _, _ => None
+          end
+      end
+  end.
+
+(* (method, target, version, header lines as written, bytes after the blank line) *)
+Definition spec_parse_request (s : bytes) : option (bytes * bytes * bytes * list (bytes * bytes) * bytes) :=
+  match cut_crlf s with
+  | Some (l, rest) =>
+      match parse_request_line l, parse_headers (S (List.length rest)) rest with
+      | Some (m, p, v), Some (hs, tail) => Some (m, p, v, hs, tail)
+      | _, _ => None
+      end
+  | None => None
+  end.
+
+Lemma cut_crlf_line : forall l rest, ~ In 13 l -> cut_crlf (l ++ crlf ++ rest) = Some (l, rest).
+Proof.
+  induction l as [|b l IH]; intros rest Hn.
+  - reflexivity.
+  - cbn [app cut_crlf]. assert (b <> 13) as Hb by (intro E; apply Hn; left; auto).
+    apply N.eqb_neq in Hb. rewrite Hb. cbn [andb]. rewrite IH; [reflexivity|].
+    intro H. apply Hn. right. exact H.
+Qed.
+
+Lemma cut_at_app : forall c l rest, ~ In c l -> cut_at c (l ++ c :: rest) = Some (l, rest).
+Proof.
+  intros c. induction l as [|b l IH]; intros rest Hn; cbn [app cut_at].
+  - rewrite N.eqb_refl. reflexivity.
+  - assert (b <> c) as Hb by (intro E; apply Hn; left; auto).
+    apply N.eqb_neq in Hb. rewrite Hb, IH; [reflexivity|]. intro H. apply Hn. right. exact H.
+Qed.
+
+Lemma parse_header_line_ok : forall n v, ~ In 58 n -> parse_header_line (n ++ B": " ++ v) = Some (n, v).
+Proof.
+  intros n v Hn. unfold parse_header_line. change (n ++ B": " ++ v) with (n ++ 58 :: 32 :: v).
+  rewrite (cut_at_app 58 n (32 :: v) Hn). reflexivity.
+Qed.
+
+Lemma parse_request_line_ok : forall p, ~ In 32 p ->
+  parse_request_line (B"GET " ++ p ++ B" HTTP/1.1") = Some (B"GET", p, B"HTTP/1.1").
+Proof.
+  intros p Hp. unfold parse_request_line.
+  change (B"GET " ++ p ++ B" HTTP/1.1") with (B"GET" ++ 32 :: (p ++ 32 :: B"HTTP/1.1")).
+  rewrite (cut_at_app 32 B"GET"); [|cbn; intros [H|[H|[H|[]]]]; discriminate].
+  rewrite (cut_at_app 32 p _ Hp). reflexivity.
+Qed.
+
+Definition hdr_wire_ok (nv : bytes * bytes) : Prop :=
+  ~ In 58 (fst nv) /\ ~ In 13 (fst nv) /\ ~ In 13 (snd nv).
+
+Lemma header_lines_length : forall L, (List.length L <= List.length (header_lines L))%nat.
+Proof.
+  induction L as [|[n v] L IH]; [cbn; lia|]. rewrite header_lines_cons. rewrite !app_length.
+  change (List.length B": ") with 2%nat. change (List.length crlf) with 2%nat. cbn [List.length] in *. lia.
+Qed.
+
+Lemma parse_headers_lines : forall L tail fuel, Forall hdr_wire_ok L -> (List.length L < fuel)%nat ->
+  parse_headers fuel (header_lines L ++ crlf ++ tail) = Some (L, tail).
+Proof.
+  induction L as [|[n v] L IH]; intros tail fuel Hok Hf; (destruct fuel as [|f]; [lia|]); cbn [parse_headers].
+  - change (header_lines [] ++ crlf ++ tail) with ([] ++ crlf ++ tail).
+    rewrite (cut_crlf_line [] tail) by (intros []). reflexivity.
+  - inversion Hok as [|x xs [H58 [H13n H13v]] Hok']; subst. cbn [fst snd] in *.
+    rewrite header_lines_cons.
+    replace ((n ++ B": " ++ v ++ crlf ++ header_lines L) ++ crlf ++ tail)
+      with ((n ++ B": " ++ v) ++ crlf ++ (header_lines L ++ crlf ++ tail)) by (rewrite <- !app_assoc; reflexivity).
+    rewrite cut_crlf_line.
+    2:{ intro H. apply in_app_or in H. destruct H as [H|H]; [exact (H13n H)|].
+        apply in_app_or in H. destruct H as [H|H]; [|exact (H13v H)].
+        cbn in H. destruct H as [H|[H|[]]]; discriminate. }
+    destruct (n ++ B": " ++ v) as [|y ys] eqn:El.
+    { exfalso. destruct n; discriminate. }
+    rewrite <- El, (parse_header_line_ok n v H58). cbn [List.length] in Hf.
+    rewrite (IH tail f Hok') by lia. reflexivity.
+Qed.
+
+(* the header lines of a generated request, names as written *)
+Definition written_headers (vh vc vu vv vk : bytes) (extra : headers) : list (bytes * bytes) :=
+  [(B"Host", vh); (B"Connection", vc); (B"Upgrade", vu); (B"Sec-WebSocket-Version", vv);
+   (B"Sec-WebSocket-Key", vk)] ++ map (fun nv => (fix_name (fst nv), snd nv)) extra.
+
+Lemma extra_lines_header_lines : forall extra,
+  extra_lines extra = header_lines (map (fun nv => (fix_name (fst nv), snd nv)) extra).
+Proof.
+  induction extra as [|[n v] r IH]; [reflexivity|].
+  cbn [map fst snd]. rewrite extra_lines_cons, header_lines_cons, IH. reflexivity.
+Qed.
+
+Lemma request_bytes_lines : forall p vh vc vu vv vk extra,
+  request_bytes p vh vc vu vv vk extra =
+  (B"GET " ++ p ++ B" HTTP/1.1") ++ crlf ++ header_lines (written_headers vh vc vu vv vk extra) ++ crlf.
+Proof.
+  intros. unfold request_bytes, written_headers. rewrite header_lines_app, !header_lines_cons, extra_lines_header_lines.
+  change (header_lines []) with (@nil N). rewrite <- !app_assoc. reflexivity.
+Qed.
+
+Lemma visible_no_cr : forall v, forallb visible v = true -> ~ In 13 v.
+Proof.
+  intros v Hv Hin. rewrite forallb_forall in Hv. specialize (Hv 13 Hin). discriminate.
+Qed.
+
+Definition name_wire_ok (n : bytes) : Prop := ~ In 58 n /\ ~ In 13 n.
+
+Lemma fix_name_wire_ok : forall n, name_wire_ok n -> name_wire_ok (fix_name n).
+Proof.
+  intros n H. unfold fix_name.
+  destruct (bytes_eqb n B"sec-websocket-protocol").
+  { split; cbn; intro Hin; repeat (destruct Hin as [Hin|Hin]; [discriminate|]); exact Hin. }
+  destruct (bytes_eqb n B"origin"); [|exact H].
+  split; cbn; intro Hin; repeat (destruct Hin as [Hin|Hin]; [discriminate|]); exact Hin.
+Qed.
+
+(* the reader gets back exactly the request line and the header lines that were written *)
+Lemma spec_parse_request_bytes : forall p vh vc vu vv vk extra tail,
+  ~ In 32 p -> ~ In 13 p ->
+  forallb visible vh = true -> forallb visible vc = true -> forallb visible vu = true ->
+  forallb visible vv = true -> forallb visible vk = true -> values_visible extra = true ->
+  Forall (fun nv => name_wire_ok (fst nv)) extra ->
+  spec_parse_request (request_bytes p vh vc vu vv vk extra ++ tail) =
+  Some (B"GET", p, B"HTTP/1.1", written_headers vh vc vu vv vk extra, tail).
+Proof.
+  intros p vh vc vu vv vk extra tail Hp32 Hp13 Hvh Hvc Hvu Hvv Hvk Hex Hnames.
+  rewrite request_bytes_lines. unfold spec_parse_request.
+  replace (((B"GET " ++ p ++ B" HTTP/1.1") ++ crlf ++ header_lines (written_headers vh vc vu vv vk extra) ++ crlf) ++ tail)
+    with ((B"GET " ++ p ++ B" HTTP/1.1") ++ crlf ++ (header_lines (written_headers vh vc vu vv vk extra) ++ crlf ++ tail))
+    by (rewrite <- !app_assoc; reflexivity).
+  rewrite cut_crlf_line.
+  2:{ intro H. apply in_app_or in H. destruct H as [H|H].
+      - cbn in H. repeat (destruct H as [H|H]; [discriminate|]). exact H.
+      - apply in_app_or in H. destruct H as [H|H]; [exact (Hp13 H)|].
+        cbn in H. repeat (destruct H as [H|H]; [discriminate|]). exact H. }
+  rewrite (parse_request_line_ok p Hp32).
+  rewrite parse_headers_lines; [reflexivity | |].
+  - unfold written_headers. apply Forall_app. split.
+    + repeat constructor; cbn [fst snd]; try (apply visible_no_cr; assumption);
+        cbn; intro Hin; repeat (destruct Hin as [Hin|Hin]; [discriminate|]); exact Hin.
+    + apply Forall_forall. intros [n v] Hin. apply in_map_iff in Hin.
+      destruct Hin as [[n0 v0] [Heq Hin0]]. cbn [fst snd] in Heq. inversion Heq; subst n v.
+      rewrite Forall_forall in Hnames. destruct (fix_name_wire_ok n0 (Hnames _ Hin0)) as [H1 H2].
+      unfold hdr_wire_ok. cbn [fst snd]. split; [exact H1|]. split; [exact H2|].
+      apply visible_no_cr. unfold values_visible in Hex. rewrite forallb_forall in Hex. exact (Hex _ Hin0).
+  - rewrite !app_length. pose proof (header_lines_length (written_headers vh vc vu vv vk extra)). lia.
+Qed.
+
+(* C16_self_accept through the bytes: the request built for a URI, read back by the reference reader
+   and with names lower-cased as HeaderMap does, passes the server's create_parts *)
+Definition lower_names (L : list (bytes * bytes)) : headers := map (fun nv => (map lower (fst nv), snd nv)) L.
+
+Lemma uri_request_self_accept : forall (p host key req k tail : bytes),
+  ~ In 32 p -> ~ In 13 p -> forallb visible host = true -> forallb visible key = true ->
+  generate_request (Some p) (client_headers host key) = HOk (req, k) ->
+  k = key /\
+  exists L, spec_parse_request (req ++ tail) = Some (B"GET", p, B"HTTP/1.1", L, tail) /\
+            lower_names L = client_headers host key /\
+            create_parts true true (lower_names L) = HOk (accept_headers key).
+Proof.
+  intros p host key req k tail Hp32 Hp13 Hh Hk Hgen.
+  rewrite (generate_request_client_headers p host key Hh Hk) in Hgen.
+  apply hok_pair_inj in Hgen. destruct Hgen as [Hreq Hkey]. subst req k. split; [reflexivity|].
+  exists (written_headers host B"Upgrade" B"websocket" B"13" key []). split.
+  - apply spec_parse_request_bytes; auto.
+  - split; [reflexivity|]. apply client_headers_accepted.
+Qed.
+
+(* any generated request reads back as: GET, the path, HTTP/1.1, the five required lines (first value
+   of each name) in the fixed order, then the other headers in list order *)
+Lemma generate_request_reads_back : forall (p : bytes) (hs : headers) (req key tail : bytes),
+  ~ In 32 p -> ~ In 13 p -> Forall (fun nv => name_wire_ok (fst nv)) hs ->
+  generate_request (Some p) hs = HOk (req, key) ->
+  exists vh vc vu vv,
+    hget B"host" hs = Some vh /\ hget B"connection" hs = Some vc /\ hget B"upgrade" hs = Some vu /\
+    hget B"sec-websocket-version" hs = Some vv /\ hget B"sec-websocket-key" hs = Some key /\
+    spec_parse_request (req ++ tail) =
+    Some (B"GET", p, B"HTTP/1.1", written_headers vh vc vu vv key (extra_headers hs), tail).
+Proof.
+  intros p hs req key tail Hp32 Hp13 Hnames Hgen. apply generate_request_ok_iff in Hgen.
+  destruct Hgen as [vh [vc [vu [vv [Hh [Hc [Hu [Hv [Hk [Hvh [Hvc [Hvu [Hvv [Hvk [Hex Hb]]]]]]]]]]]]]]].
+  exists vh, vc, vu, vv. repeat (split; [assumption|]). subst req.
+  apply spec_parse_request_bytes; auto.
+  apply Forall_forall. intros nv Hin. unfold extra_headers in Hin. apply filter_In in Hin.
+  rewrite Forall_forall in Hnames. apply Hnames. tauto.
+Qed.
+
+(* each required header occurs exactly once among the written lines: the five fixed ones, and no
+   other line has a name equal to one of them ignoring case (names lower-case, as HeaderMap keeps them) *)
+Lemma written_extras_not_required : forall hs,
+  Forall (fun nv => map lower (fst nv) = fst nv) hs ->
+  Forall (fun nv => forall q, In q required_headers -> eq_ic (fst nv) (snd q) = false)
+         (map (fun nv => (fix_name (fst nv), snd nv)) (extra_headers hs)).
+Proof.
+  intros hs Hlow. apply Forall_forall. intros [n v] Hin. apply in_map_iff in Hin.
+  destruct Hin as [[n0 v0] [Heq Hin0]]. cbn [fst snd] in Heq. inversion Heq; subst n v. cbn [fst].
+  unfold extra_headers in Hin0. apply filter_In in Hin0. destruct Hin0 as [Hin0 Hnr].
+  apply negb_true_iff in Hnr. cbn [fst] in Hnr.
+  rewrite Forall_forall in Hlow. apply extra_name_not_required; [exact (Hlow _ Hin0) | exact Hnr].
+Qed.
